@@ -131,7 +131,7 @@ LIB_MODE_TEXT = {
     "bytes": "byte_copy/byte_copyr at every overlap, byte_chr/rchr, str_*/case_* on every string <=4 over {a,B,z,Z,@,[,`,{,NUL}, case folding of all 256 bytes",
     "num": "fmt_ulong/fmt_uint0/scan_ulong round trips on boundary values, scan_ulong/scan_8long on every digit string <=3 followed by every byte",
     "map": "constmap on all 256 subsets of 8 keys (empty key, case twins, colon data) x 17 probes, split on/off",
-    "cdb": "cdb_seek on a 9-record database (duplicate and high-byte keys): intact, one failing read at every call, every truncation",
+    "cdb": "cdb_seek on a 9-record database (duplicate and high-byte keys): intact, one failing read at every call, every truncation; every two-key database whose keys (over {a..h}^1..4) share a hash table (same first slot, last slot, wrap-around) with a third absent key, and 256 crowded tables",
     "seek": "seek_set/seek_cur/seek_end/seek_trunc at offsets around 2^31 and 2^32 on a sparse file",
     "ctl": "control_readfile/readline/readint/rldef on every short file body, absent and unreadable files, with/without control/me",
 }
